@@ -335,6 +335,35 @@ func (c *Case) toolChunks(name, args string) []string {
 	return []string{name, "(", args, ")"}
 }
 
+// some call of the round fails when its tool is called (as opposed to: after its stream was opened)
+func (c *Case) failsAtCall(defs []ToolDef, calls []TCall) bool {
+	for _, cl := range calls {
+		for _, f := range c.FailArgs {
+			if f == cl.Args && kindIn(defs, cl.Name) != "" {
+				return true
+			}
+		}
+		// an invokable-only tool is streamed by invoking it: its failure comes when it is called
+		if c.failsLate(cl.Args) && kindIn(defs, cl.Name) == "inv" {
+			return true
+		}
+	}
+	return false
+}
+
+// some call of the round fails, at call time or later
+func (c *Case) roundFails(defs []ToolDef, calls []TCall) bool {
+	if c.failsAtCall(defs, calls) {
+		return true
+	}
+	for _, cl := range calls {
+		if c.failsLate(cl.Args) && kindIn(defs, cl.Name) != "" {
+			return true
+		}
+	}
+	return false
+}
+
 // the tool fails after having produced its chunks
 func (c *Case) failsLate(args string) bool {
 	for _, o := range c.Outs {
@@ -559,6 +588,7 @@ type RunObs struct {
 	HasEmits bool      `json:"has_emits,omitempty"`    // the run used WithMessageFuture
 	Emits    []Msg     `json:"emits,omitempty"`        // messages handed out by the future (tool messages of a round in call order)
 	FutEnd   string    `json:"future_end,omitempty"`   // closed | error | hang
+	LateErr  bool      `json:"late_err,omitempty"`     // Stream returned a stream and the error came while it was read
 }
 
 // what is run: the agent itself, or a parent graph holding the exported agent graph as its only node
@@ -706,6 +736,7 @@ func runAgent(tg *target, c *Case, mode string) (o RunObs) {
 
 	var final *schema.Message
 	var err error
+	late := false
 	done := make(chan any, 1)
 	go func() {
 		done <- lib.Recover(func() {
@@ -719,6 +750,7 @@ func runAgent(tg *target, c *Case, mode string) (o RunObs) {
 				return
 			}
 			final, err = schema.ConcatMessageStream(sr)
+			late = err != nil
 		})
 	}()
 	select {
@@ -728,6 +760,7 @@ func runAgent(tg *target, c *Case, mode string) (o RunObs) {
 			o.Out = Out{Class: "panic", ErrMsg: short(fmt.Sprint(p))}
 		case err != nil:
 			o.Out = Out{Class: "err", Err: classify(err), ErrMsg: short(err.Error())}
+			o.LateErr = late
 		default:
 			m := render(final)
 			o.Out = Out{Class: "final", Msg: &m}
@@ -864,7 +897,10 @@ func runAgent(tg *target, c *Case, mode string) (o RunObs) {
 				sorted[gi] = grp[from]
 			}
 			grp = sorted
-			if !(j == len(emits) && o.Out.Class == "err" && o.Out.Err == 3) {
+			// the tool messages of a round in which a tool failed are not compared (which of the
+			// others had finished is a matter of timing); such a round is the last one
+			failedRound := o.Out.Err == 3 || (o.Out.Err == 1 && c.roundFails(c.toolsOf(!tg.exported), calls))
+			if !(j == len(emits) && o.Out.Class == "err" && failedRound) {
 				outE = append(outE, grp...)
 			}
 			i = j
@@ -922,11 +958,15 @@ func (c *Case) inRD(name string) bool {
 // tools, direct return) costs one step of MaxStep (0 = number of nodes + 10).
 // stopAt >= 0: pretend the checker does not see the tool calls of step stopAt (known finding).
 func (c *Case) specRun(stopAt int) (o RunObs) {
-	return c.specRunWith(stopAt, true)
+	return c.specRunWith(stopAt, true, false)
 }
 
-// callOpts: the call options of the case apply (false for the run inside a parent graph)
-func (c *Case) specRunWith(stopAt int, callOpts bool) (o RunObs) {
+// callOpts: the call options of the case apply (false for the run inside a parent graph).
+// stream: streams are lazy - a tool whose stream fails after it was opened lets the tools node
+// return, the failure is met by whoever reads the node's output: the chat node in the next step
+// (its pre-processing concatenates the stream), or direct_return's reader, the caller.  The run
+// fails either way; at the step limit it is the step-limit error that ends it.
+func (c *Case) specRunWith(stopAt int, callOpts bool, stream bool) (o RunObs) {
 	budget := c.MaxStep
 	if budget == 0 {
 		budget = 12
@@ -1005,6 +1045,9 @@ func (c *Case) specRunWith(stopAt int, callOpts bool) (o RunObs) {
 			results = append(results, Msg{Role: 3, Content: out, TCID: cl.ID})
 		}
 		if failed {
+			if stream && !c.failsAtCall(defs, st.Calls) && budget == 0 {
+				return fail(1) // the node that would meet the stream's failure cannot run any more
+			}
 			return fail(3)
 		}
 		if o.HasEmits {
@@ -1132,8 +1175,10 @@ func (c *Case) oracle(gen, str *RunObs, conc []RunObs, exp []RunObs) (string, st
 			return fmt.Sprintf("%s: %d tool executions did not receive the option given with react.WithToolOptions", o.Mode, o.OptLost), "tool-option-lost"
 		}
 		if o.HasEmits {
+			// the future ends with the graph run: a failure met only while the returned stream is read
+			// (a tool stream failing after it was opened, behind direct_return) comes after its end
 			want := "closed"
-			if o.Out.Class == "err" {
+			if o.Out.Class == "err" && !o.LateErr {
 				want = "error"
 			}
 			if o.FutEnd != want {
@@ -1145,13 +1190,14 @@ func (c *Case) oracle(gen, str *RunObs, conc []RunObs, exp []RunObs) (string, st
 	if d := sameRun(gen, &spec); d != "" {
 		return fmt.Sprintf("Generate differs from the property in %s: got %s, expected %s", d, js(gen), js(spec)), "generate-differs:" + d
 	}
+	spec = c.specRunWith(-1, true, true)
 	if d := sameRun(str, &spec); d != "" {
 		// the known finding: default checker, a non-empty content chunk precedes the first tool-call
 		// chunk of step k, and Stream behaves exactly like the property's loop stopped at step k
 		// with that (tool-calling) message as its answer
 		if c.Checker == "default" {
 			if k := c.contentBeforeToolCall(len(gen.Inputs)); k >= 0 {
-				cut := c.specRun(k)
+				cut := c.specRunWith(k, true, true)
 				if sameRun(str, &cut) == "" {
 					return fmt.Sprintf("Stream returns the tool-calling message of model call %d instead of running its tools (default first-chunk checker, content streamed before the tool call); Generate runs them", k), sigKnown
 				}
@@ -1169,12 +1215,12 @@ func (c *Case) oracle(gen, str *RunObs, conc []RunObs, exp []RunObs) (string, st
 		}
 	}
 	// the agent as a node of a parent graph (no call options there): the property's loop again
-	specX := c.specRunWith(-1, false)
 	for i := range exp {
+		specX := c.specRunWith(-1, false, exp[i].Mode == "stream")
 		if d := sameRun(&exp[i], &specX); d != "" {
 			if exp[i].Mode == "stream" && c.Checker == "default" {
 				if k := c.contentBeforeToolCall(len(specX.Inputs)); k >= 0 {
-					cut := c.specRunWith(k, false)
+					cut := c.specRunWith(k, false, true)
 					if sameRun(&exp[i], &cut) == "" {
 						return fmt.Sprintf("Stream (agent exported into a parent graph) returns the tool-calling message of model call %d instead of running its tools (default first-chunk checker, content streamed before the tool call)", k), sigKnown
 					}
